@@ -7,7 +7,7 @@
     variable owns two nodes.  No hypothesis on the markers: the epidata of [g]
     is arbitrary.  The only hypothesis on [g] is that roles carry their colon
     (which the Graph constructor guarantees, [mk_graph_roles_colon]). *)
-From PM Require Import Spec.GraphEq Impl.Configure Proofs.Configure_term Proofs.Model_lemmas.
+From PM Require Import Spec.GraphEq Spec.RoleAlgebra Impl.Configure Proofs.Configure_term Proofs.Model_lemmas.
 From Coq Require Import Lia.
 
 (* ------------------------------------------------------------------ *)
@@ -601,7 +601,7 @@ Proof.
 Qed.
 
 (* ------------------------------------------------------------------ *)
-(** * Roles with a colon are never the concept marker "/" *)
+(** * Roles with a colon are never the concept marker [/] *)
 
 Lemma colon_not_slash : forall r, startswith r [COLON] = true -> str_eqb r SLASHS = false.
 Proof.
@@ -638,7 +638,7 @@ Definition colon_ok (ts : list triple) : Prop :=
 Definition written (o : triple) : list triple :=
   if is_instance o && missing_concept (ttgt o) then [] else [edge_of o].
 Definition placed_as (m : model) (t : triple) (os : list triple) : Prop :=
-  exists o, (o = t \/ o = invert m t) /\ os = written o.
+  exists o, (o = t \/ (o = invert m t /\ is_instance t = false)) /\ os = written o.
 
 Definition Adds (m : model) (ts : list triple) (st st' : store) : Prop :=
   exists os, Forall2 (placed_as m) ts os /\
@@ -778,3 +778,1267 @@ Proof.
     rewrite <- (akey_eqb _ _ Evw), (akey_eqb _ _ Esv). apply Permutation_refl.
   - unfold ins_at. rewrite (nth_error_upd_same _ _ _ _ G). simpl. eauto.
 Qed.
+
+(* ------------------------------------------------------------------ *)
+(** * [cnode] = _configure_node *)
+
+Lemma is_instance_invert : forall m t, is_instance (invert m t) = str_eqb (invert_role m (trole t)) INSTANCE.
+Proof. reflexivity. Qed.
+
+Lemma colon_ok_cons : forall t ts, colon_ok (t :: ts) ->
+  startswith (trole t) [COLON] = true /\ colon_ok ts.
+Proof. intros t ts H. inversion H; subst. auto. Qed.
+
+Lemma colon_ok_app : forall a b, colon_ok (a ++ b) <-> colon_ok a /\ colon_ok b.
+Proof. intros. apply Forall_app. Qed.
+
+Lemma cnode_spec : forall f m var id surp data st nm P s' data' st' nm',
+  cnode f m var id surp data st nm = Ok (s', data', st', nm') ->
+  WF P st nm -> colon_ok (data_triples data) ->
+  (exists w es, nth_error st id = Some (w, es) /\ atom_eqb var w = true) ->
+  WF P st' nm' /\ ext st st' /\
+  exists used, data = used ++ data' /\ Adds m (data_triples used) st st'.
+Proof.
+  induction f as [|f IH]; intros m var id surp data st nm P s' data' st' nm' E W C N; [discriminate|].
+  destruct data as [|d data0].
+  { simpl in E. inversion E; subst. split; [exact W|]. split; [apply ext_refl|].
+    exists []. split; [reflexivity|apply Adds_nil, Permutation_refl]. }
+  destruct d as [t push es|].
+  2:{ simpl in E. inversion E; subst. split; [exact W|]. split; [apply ext_refl|].
+      exists [DPop]. split; [reflexivity|apply Adds_nil, Permutation_refl]. }
+  simpl in C. apply colon_ok_cons in C. destruct C as [Ct C].
+  destruct N as (w & es0 & G & Evw).
+  (* common continuation: one oriented triple [o] was placed, then recursion *)
+  assert (K : forall o surp1 st_a nm_a,
+    (o = t \/ (o = invert m t /\ is_instance t = false)) ->
+    cnode f m var id surp1 data0 st_a nm_a = Ok (s', data', st', nm') ->
+    WF P st_a nm_a -> ext st st_a ->
+    Permutation (store_triples st_a) (written o ++ store_triples st) ->
+    (exists es1, nth_error st_a id = Some (w, es1)) ->
+    WF P st' nm' /\ ext st st' /\
+    exists used, DT t push es :: data0 = used ++ data' /\ Adds m (data_triples used) st st').
+  { intros o surp1 st_a nm_a Ho E1 Wa Xa Pa [es1 Ga].
+    destruct (IH _ _ _ _ _ _ _ _ _ _ _ _ E1 Wa C) as (W' & X' & used & Eu & Au); [eauto|].
+    split; [exact W'|]. split; [eapply ext_trans; eassumption|].
+    exists (DT t push es :: used). split; [rewrite Eu; reflexivity|].
+    change (data_triples (DT t push es :: used)) with ([t] ++ data_triples used).
+    eapply Adds_app; [|exact Au].
+    eapply Adds_one; [exists o; split; [exact Ho|reflexivity]|exact Pa]. }
+  cbn [cnode] in E.
+  destruct (atom_eqb (tsrc t) var) eqn:Esv.
+  - (* expected orientation: o = t *)
+    destruct (str_eqb (trole t) INSTANCE) eqn:Hi.
+    + destruct (missing_concept (ttgt t)) eqn:Hm.
+      * eapply (K t); [left; reflexivity|exact E|exact W|apply ext_refl| |eauto].
+        unfold written, is_instance. rewrite Hi, Hm. apply Permutation_refl.
+      * destruct (step_front P st nm id w es0 var t es W G Evw Esv Hi) as (Wa & Xa & Pa & Ga).
+        eapply (K t); [left; reflexivity|exact E|exact Wa|exact Xa| |exact Ga].
+        unfold written, is_instance. rewrite Hi, Hm. exact Pa.
+    + destruct (push && negb (has_node (ttgt t) st nm)) eqn:Hp.
+      * (* push: configure the child first *)
+        apply andb_true_iff in Hp. destruct Hp as [_ Hn]. apply negb_true_iff in Hn.
+        destruct (cnode f m (ttgt t) (length st) false data0 (st ++ [(ttgt t, [])])
+                    (dset atom_eqb (ttgt t) (Some (length st)) nm))
+          as [[[[s2 data2] st2] nm2]| | | | | | | |] eqn:E1; try discriminate.
+        pose proof (WF_push _ _ _ _ W Hn) as W1.
+        assert (C1 : colon_ok (data_triples data0)) by exact C.
+        assert (Lid : id < length st) by (apply nth_error_Some; congruence).
+        destruct (IH _ _ _ _ _ _ _ _ _ _ _ _ E1 W1 C1) as (W2 & X2 & used1 & Eu1 & Au1).
+        { exists (ttgt t), []. split; [|apply atom_eqb_refl].
+          rewrite nth_error_app2 by lia. rewrite Nat.sub_diag. reflexivity. }
+        assert (X1 : ext st (st ++ [(ttgt t, [])])) by (exists [ttgt t]; rewrite map_app; reflexivity).
+        destruct (ext_nth _ _ _ _ _ (ext_trans _ _ _ X1 X2) G) as [es2 G2].
+        assert (Hv : node_var_at (st ++ [(ttgt t, [])]) (length st) = ttgt t).
+        { unfold node_var_at. rewrite map_app, app_nth2 by (rewrite map_length; lia).
+          rewrite map_length, Nat.sub_diag. reflexivity. }
+        destruct (step_attach P st2 nm2 id w es2 var t es (length st) (st ++ [(ttgt t, [])])
+                    W2 G2 Evw Esv Hi Lid) as (Wa & Xa & Pa & [es3 Ga]);
+          [rewrite app_length; simpl; lia|exact X2|exact Hv|].
+        rewrite Eu1 in C1. rewrite data_triples_app in C1. apply colon_ok_app in C1. destruct C1 as [_ C2].
+        destruct (IH _ _ _ _ _ _ _ _ _ _ _ _ E Wa C2) as (W' & X' & used2 & Eu2 & Au2); [eauto|].
+        split; [exact W'|].
+        split; [eapply ext_trans; [exact X1|]; eapply ext_trans; [exact X2|];
+                eapply ext_trans; [exact Xa|exact X']|].
+        exists (DT t push es :: used1 ++ used2).
+        split; [rewrite Eu1, Eu2; simpl; rewrite <- app_assoc; reflexivity|].
+        apply (Adds_perm m (data_triples used1 ++ [t] ++ data_triples used2)).
+        { simpl. rewrite data_triples_app. apply Permutation_sym, Permutation_middle. }
+        eapply Adds_app; [eapply Adds_store_eq; [eapply store_triples_push; exact W|exact Au1]|].
+        eapply Adds_app; [|exact Au2].
+        eapply Adds_one; [exists t; split; [left; reflexivity|reflexivity]|].
+        unfold written, is_instance. rewrite Hi. exact Pa.
+      * destruct (step_end_ca P st nm id w es0 var t es W G Evw Esv Hi Ct) as (Wa & Xa & Pa & Ga).
+        eapply (K t); [left; reflexivity|exact E|exact Wa|exact Xa| |exact Ga].
+        unfold written, is_instance. rewrite Hi. exact Pa.
+  - destruct (atom_eqb (ttgt t) var && negb (str_eqb (trole t) INSTANCE)) eqn:Hinv.
+    + (* unexpected inversion: o = invert m t, push dropped *)
+      apply andb_true_iff in Hinv. destruct Hinv as [Etv Hni]. apply negb_true_iff in Hni.
+      assert (Hor : invert m t = t \/ (invert m t = invert m t /\ is_instance t = false))
+        by (right; split; [reflexivity|exact Hni]).
+      assert (Eso : atom_eqb (tsrc (invert m t)) var = true) by exact Etv.
+      assert (Co : startswith (trole (invert m t)) [COLON] = true)
+        by (apply colon_invert_role; exact Ct).
+      destruct (str_eqb (trole (invert m t)) INSTANCE) eqn:Hi.
+      * destruct (missing_concept (ttgt (invert m t))) eqn:Hm.
+        -- eapply (K (invert m t)); [exact Hor|exact E|exact W|apply ext_refl| |eauto].
+           unfold written, is_instance. rewrite Hi, Hm. apply Permutation_refl.
+        -- destruct (step_front P st nm id w es0 var (invert m t) es W G Evw Eso Hi) as (Wa & Xa & Pa & Ga).
+           eapply (K (invert m t)); [exact Hor|exact E|exact Wa|exact Xa| |exact Ga].
+           unfold written, is_instance. rewrite Hi, Hm. exact Pa.
+      * cbn [andb] in E.
+        destruct (step_end_ca P st nm id w es0 var (invert m t) es W G Evw Eso Hi Co) as (Wa & Xa & Pa & Ga).
+        eapply (K (invert m t)); [exact Hor|exact E|exact Wa|exact Xa| |exact Ga].
+        unfold written, is_instance. rewrite Hi. exact Pa.
+    + (* cannot place *)
+      inversion E; subst. split; [exact W|]. split; [apply ext_refl|].
+      exists []. split; [reflexivity|apply Adds_nil, Permutation_refl].
+Qed.
+
+(* ------------------------------------------------------------------ *)
+(** * A small solver for permutations of concatenations *)
+
+Lemma pf_here : forall {A} (a r : list A), Permutation (a ++ r) (a ++ r).
+Proof. intros. apply Permutation_refl. Qed.
+Lemma pf_there : forall {A} (a b r r' : list A),
+  Permutation r (a ++ r') -> Permutation (b ++ r) (a ++ b ++ r').
+Proof.
+  intros A a b r r' H. eapply perm_trans; [apply Permutation_app_head, H|].
+  rewrite !app_assoc. apply Permutation_app_tail, Permutation_app_comm.
+Qed.
+Lemma pstep_lemma : forall {A} (a l r r' : list A),
+  Permutation r (a ++ r') -> Permutation l r' -> Permutation (a ++ l) r.
+Proof.
+  intros A a l r r' H1 H2. apply Permutation_sym. eapply perm_trans; [exact H1|].
+  apply Permutation_app_head, Permutation_sym, H2.
+Qed.
+Lemma perm_pad : forall {A} (l r : list A), Permutation (l ++ []) (r ++ []) -> Permutation l r.
+Proof. intros A l r. rewrite !app_nil_r. auto. Qed.
+
+Ltac pfind := first [ apply pf_here | (apply pf_there; pfind) ].
+Ltac pstep := eapply pstep_lemma; [pfind|].
+Ltac psolve := apply perm_pad; rewrite <- ?app_assoc; repeat pstep; apply perm_nil.
+
+Lemma data_triples_rev : forall d, Permutation (data_triples (rev d)) (data_triples d).
+Proof. intros d. apply Permutation_flat_map. apply Permutation_sym, Permutation_rev. Qed.
+
+(* ------------------------------------------------------------------ *)
+(** * [find_next] *)
+
+Lemma guarded_site_spec : forall P v st nm ok st1 nm1,
+  WF P st nm ->
+  (if dmem atom_eqb v nm then site v st nm else (false, st, nm)) = (ok, st1, nm1) ->
+  (ok = false /\ st1 = st /\ nm1 = nm) \/
+  (ok = true /\ WF P st1 nm1 /\ ext st st1 /\ store_triples st1 = store_triples st /\
+   exists id w es, dget atom_eqb v nm1 = Some (Some id) /\ nth_error st1 id = Some (w, es) /\
+                   atom_eqb v w = true).
+Proof.
+  intros P v st nm ok st1 nm1 W E.
+  destruct (dmem atom_eqb v nm).
+  - destruct ok.
+    + right. split; [reflexivity|]. eapply site_spec; eassumption.
+    + left. apply site_false_same in E. tauto.
+  - inversion E; subst. left. auto.
+Qed.
+
+Lemma find_next_content : forall data acc st nm sk var data1 st1 nm1 P,
+  find_next data acc st nm = (sk, var, data1, st1, nm1) -> WF P st nm ->
+  rev sk ++ data1 = rev acc ++ data /\
+  WF P st1 nm1 /\ ext st st1 /\ store_triples st1 = store_triples st /\
+  (forall v, var = Some v ->
+     exists id w es, dget atom_eqb v nm1 = Some (Some id) /\ nth_error st1 id = Some (w, es) /\
+                     atom_eqb v w = true).
+Proof.
+  induction data as [|d data IH]; intros acc st nm sk var data1 st1 nm1 P E W.
+  - simpl in E. inversion E; subst. rewrite !app_nil_r.
+    split; [reflexivity|]. split; [exact W|]. split; [apply ext_refl|]. split; [reflexivity|].
+    intros; discriminate.
+  - destruct d as [t push es|].
+    + cbn [find_next] in E.
+      destruct (if dmem atom_eqb (tsrc t) nm then site (tsrc t) st nm else (false, st, nm))
+        as [[ok1 sa] na] eqn:S1.
+      destruct (guarded_site_spec _ _ _ _ _ _ _ W S1) as [(-> & -> & ->)|(-> & Wa & Xa & Ta & Ha)].
+      2:{ inversion E; subst. split; [reflexivity|]. split; [exact Wa|]. split; [exact Xa|]. split; [exact Ta|].
+          intros v Hv. inversion Hv; subst. exact Ha. }
+      destruct (if dmem atom_eqb (ttgt t) nm then site (ttgt t) st nm else (false, st, nm))
+        as [[ok2 sb] nb] eqn:S2.
+      destruct (guarded_site_spec _ _ _ _ _ _ _ W S2) as [(-> & -> & ->)|(-> & Wa & Xa & Ta & Ha)].
+      2:{ inversion E; subst. split; [reflexivity|]. split; [exact Wa|]. split; [exact Xa|]. split; [exact Ta|].
+          intros v Hv. inversion Hv; subst. exact Ha. }
+      destruct data as [|d' data'].
+      { inversion E; subst. split; [reflexivity|]. split; [exact W|]. split; [apply ext_refl|].
+        split; [reflexivity|]. intros; discriminate. }
+      apply IH with (P := P) in E; [|exact W].
+      destruct E as (E & R). split; [|exact R].
+      rewrite E. simpl. rewrite <- app_assoc. reflexivity.
+    + cbn [find_next] in E.
+      destruct data as [|d' data'].
+      { inversion E; subst. split; [reflexivity|]. split; [exact W|]. split; [apply ext_refl|].
+        split; [reflexivity|]. intros; discriminate. }
+      apply IH with (P := P) in E; [|exact W].
+      destruct E as (E & R). split; [|exact R].
+      rewrite E. simpl. rewrite <- app_assoc. reflexivity.
+Qed.
+
+(* ------------------------------------------------------------------ *)
+(** * [cloop] = the while loop of configure *)
+
+Lemma cloop_spec : forall f m data skipped st nm st',
+  cloop f m data skipped st nm = Ok st' ->
+  WF [] st nm -> colon_ok (data_triples data) -> colon_ok (data_triples skipped) ->
+  (exists nm', WF [] st' nm') /\ ext st st' /\
+  Adds m (data_triples data ++ data_triples skipped) st st'.
+Proof.
+  induction f as [|f IH]; intros m data skipped st nm st' E W Cd Cs; [discriminate|].
+  rewrite cloop_S in E.
+  destruct data as [|d0 data0].
+  { destruct skipped; [|discriminate]. inversion E; subst.
+    split; [eauto|]. split; [apply ext_refl|]. apply Adds_nil, Permutation_refl. }
+  remember (d0 :: data0) as data eqn:Hdata.
+  destruct (find_next data [] st nm) as [[[[sk var] data1] st1] nm1] eqn:FN.
+  destruct (find_next_content _ _ _ _ _ _ _ _ _ [] FN W) as (Esplit & W1 & X1 & T1 & Hv).
+  simpl in Esplit.
+  cbv zeta in E.
+  destruct var as [v|]; [|discriminate].
+  destruct (Hv v eq_refl) as (id & w & es & D & G & Evw).
+  assert (E' :
+    (if Nat.eqb (length data1) 0 then LayoutErr 1
+     else match dget atom_eqb v nm1 with
+          | Some (Some id) =>
+              r <- cnode (S (length data1)) m v id false data1 st1 nm1 ;;
+              let '(surp, data2, st2, nm2) := r in
+              if Nat.eqb (length data2) (length data1) && surp then
+                match data2 with
+                | d :: data3 => cloop f m (drop_pops data3) (d :: skipped ++ sk) st2 nm2
+                | [] => Other 3
+                end
+              else if Nat.leb (length data1) (length data2) then LayoutErr 2
+              else cloop f m (drop_pops (data2 ++ rev (skipped ++ sk))) [] st2 nm2
+          | _ => Other 2
+          end) = Ok st').
+  { destruct v; [discriminate|exact E|exact E]. }
+  clear E.
+  destruct (Nat.eqb (length data1) 0); [discriminate|].
+  rewrite D in E'.
+  destruct (cnode (S (length data1)) m v id false data1 st1 nm1)
+    as [[[[surp data2] st2] nm2]| | | | | | | |] eqn:EC; try discriminate.
+  cbn [bind] in E'.
+  (* multiset bookkeeping *)
+  assert (Pdata : Permutation (data_triples data) (data_triples sk ++ data_triples data1)).
+  { rewrite <- Esplit, data_triples_app. apply Permutation_app_tail, data_triples_rev. }
+  assert (Call : colon_ok (data_triples sk ++ data_triples data1)).
+  { unfold colon_ok. eapply Permutation_Forall; [exact Pdata|exact Cd]. }
+  apply colon_ok_app in Call. destruct Call as [Csk Cd1].
+  destruct (cnode_spec _ _ _ _ _ _ _ _ [] _ _ _ _ EC W1 Cd1) as (W2 & X2 & used & Eu & Au); [eauto|].
+  assert (Cd1' := Cd1). rewrite Eu, data_triples_app in Cd1'. apply colon_ok_app in Cd1'.
+  destruct Cd1' as [_ Cd2].
+  apply (Adds_store_eq _ _ _ _ _ T1) in Au.
+  destruct (Nat.eqb (length data2) (length data1) && surp).
+  - (* no progress: the unplaceable datum moves to [skipped] *)
+    destruct data2 as [|d data3]; [discriminate|].
+    assert (Cd3 : colon_ok (data_triples (drop_pops data3))).
+    { rewrite data_triples_drop_pops.
+      change (d :: data3) with ([d] ++ data3) in Cd2. rewrite data_triples_app in Cd2.
+      apply colon_ok_app in Cd2. tauto. }
+    assert (Cs' : colon_ok (data_triples (d :: skipped ++ sk))).
+    { change (d :: skipped ++ sk) with ([d] ++ skipped ++ sk). rewrite !data_triples_app.
+      change (d :: data3) with ([d] ++ data3) in Cd2. rewrite data_triples_app in Cd2.
+      apply colon_ok_app in Cd2. destruct Cd2 as [Cdd _].
+      apply colon_ok_app; split; [exact Cdd|]. apply colon_ok_app; split; assumption. }
+    destruct (IH _ _ _ _ _ _ E' W2 Cd3 Cs') as (W' & X' & A').
+    split; [exact W'|]. split; [eapply ext_trans; [exact X1|]; eapply ext_trans; eassumption|].
+    eapply Adds_perm; [|eapply Adds_app; [exact Au|exact A']].
+    rewrite data_triples_drop_pops.
+    change (d :: skipped ++ sk) with ([d] ++ skipped ++ sk). rewrite !data_triples_app.
+    apply Permutation_sym.
+    eapply perm_trans; [apply Permutation_app_tail, Pdata|].
+    rewrite Eu. change (d :: data3) with ([d] ++ data3). rewrite !data_triples_app.
+    psolve.
+  - destruct (Nat.leb (length data1) (length data2)); [discriminate|].
+    assert (Cd3 : colon_ok (data_triples (drop_pops (data2 ++ rev (skipped ++ sk))))).
+    { rewrite data_triples_drop_pops, data_triples_app.
+      apply colon_ok_app; split; [exact Cd2|].
+      unfold colon_ok. eapply Permutation_Forall; [apply Permutation_sym, data_triples_rev|].
+      rewrite data_triples_app. apply colon_ok_app; split; assumption. }
+    destruct (IH _ _ _ _ _ _ E' W2 Cd3 (Forall_nil _)) as (W' & X' & A').
+    split; [exact W'|]. split; [eapply ext_trans; [exact X1|]; eapply ext_trans; eassumption|].
+    eapply Adds_perm; [|eapply Adds_app; [exact Au|exact A']].
+    rewrite data_triples_drop_pops, data_triples_app. simpl. rewrite app_nil_r.
+    apply Permutation_sym.
+    eapply perm_trans; [apply Permutation_app_tail, Pdata|].
+    eapply perm_trans; [|apply Permutation_app_head, Permutation_app_head, Permutation_sym, data_triples_rev].
+    rewrite Eu. rewrite !data_triples_app.
+    psolve.
+Qed.
+
+(* ------------------------------------------------------------------ *)
+(** * Forests given by a child function with increasing ids
+
+    If every child id is larger than its parent, and every id 1..n-1 is the
+    child of exactly one edge, the depth-first visit from 0 meets every id
+    exactly once. *)
+
+Lemma flat_map_ext_in : forall {A B} (f g : A -> list B) l,
+  (forall a, In a l -> f a = g a) -> flat_map f l = flat_map g l.
+Proof.
+  intros A B f g l H. induction l as [|x l IH]; simpl; [reflexivity|].
+  rewrite H by (left; reflexivity). rewrite IH; [reflexivity|].
+  intros a Ia. apply H. right. exact Ia.
+Qed.
+
+Lemma filter_none : forall {A} (f : A -> bool) l, (forall x, In x l -> f x = false) -> filter f l = [].
+Proof.
+  intros A f l H. induction l as [|x l IH]; simpl; [reflexivity|].
+  rewrite H by (left; reflexivity). apply IH. intros y Iy. apply H. right. exact Iy.
+Qed.
+
+Lemma filter_all : forall {A} (f : A -> bool) l, (forall x, In x l -> f x = true) -> filter f l = l.
+Proof.
+  intros A f l H. induction l as [|x l IH]; simpl; [reflexivity|].
+  rewrite H by (left; reflexivity). f_equal. apply IH. intros y Iy. apply H. right. exact Iy.
+Qed.
+
+Lemma Permutation_filter' : forall {A} (f : A -> bool) l l',
+  Permutation l l' -> Permutation (filter f l) (filter f l').
+Proof.
+  intros A f l l' P. induction P; simpl.
+  - constructor.
+  - destruct (f x); [constructor|]; assumption.
+  - destruct (f x), (f y); try apply Permutation_refl. apply perm_swap.
+  - eapply perm_trans; eassumption.
+Qed.
+
+Lemma filter_eq_seq : forall k len a, a <= k < a + len ->
+  filter (fun x => Nat.eqb x k) (seq a len) = [k].
+Proof.
+  induction len as [|len IH]; intros a H; [lia|]. simpl.
+  destruct (Nat.eqb a k) eqn:E.
+  - apply Nat.eqb_eq in E. subst. f_equal.
+    apply filter_none. intros x Ix. apply in_seq in Ix. apply Nat.eqb_neq. lia.
+  - apply Nat.eqb_neq in E. apply IH. lia.
+Qed.
+
+Lemma filter_le_split : forall k l,
+  Permutation (filter (fun c => Nat.leb k c) l)
+              (filter (fun c => Nat.eqb c k) l ++ filter (fun c => Nat.leb (S k) c) l).
+Proof.
+  intros k. induction l as [|x l IH]; cbn [filter]; [constructor|].
+  destruct (Nat.leb_spec k x), (Nat.eqb_spec x k), (Nat.leb_spec (S k) x); try lia; cbn [app].
+  - constructor. exact IH.
+  - eapply perm_trans; [constructor; exact IH|]. apply Permutation_middle.
+  - exact IH.
+Qed.
+
+Section Forest.
+  Variable n : nat.
+  Variable ch : nat -> list nat.
+  Hypothesis up : forall i c, In c (ch i) -> i < c < n.
+  Hypothesis tree : Permutation (flat_map ch (seq 0 n)) (seq 1 (n - 1)).
+  Hypothesis pos : 0 < n.
+
+  Fixpoint vis (f : nat) (i : nat) : list nat :=
+    match f with O => [] | S f' => i :: flat_map (vis f') (ch i) end.
+
+  Lemma vis_fuel : forall f f' i, n - i <= f -> n - i <= f' -> i < n -> vis f i = vis f' i.
+  Proof.
+    induction f as [|f IH]; intros f' i H1 H2 L; [lia|].
+    destruct f' as [|f']; [lia|]. simpl. f_equal.
+    apply flat_map_ext_in. intros c Ic. apply up in Ic. apply IH; lia.
+  Qed.
+
+  Definition full (i : nat) : list nat := vis (n - i) i.
+
+  Lemma full_unfold : forall i, i < n -> full i = i :: flat_map full (ch i).
+  Proof.
+    intros i L. unfold full. destruct (n - i) as [|f] eqn:E; [lia|]. simpl. f_equal.
+    apply flat_map_ext_in. intros c Ic. apply up in Ic. apply vis_fuel; lia.
+  Qed.
+
+  Definition kids (k : nat) : list nat := flat_map ch (seq 0 k).
+  Definition roots (k : nat) : list nat := filter (fun c => Nat.leb k c) (kids k).
+
+  Lemma kids_S : forall k, kids (S k) = kids k ++ ch k.
+  Proof. intros k. unfold kids. rewrite seq_S, flat_map_app. simpl. rewrite app_nil_r. reflexivity. Qed.
+
+  Lemma kids_lt : forall k c, In c (kids k) -> c < n.
+  Proof.
+    intros k c H. unfold kids in H. apply in_flat_map in H. destruct H as (j & _ & Ic).
+    apply up in Ic. lia.
+  Qed.
+
+  Lemma once_below : forall k, 1 <= k < n -> filter (fun c => Nat.eqb c k) (kids k) = [k].
+  Proof.
+    intros k H.
+    assert (S1 : seq 0 n = seq 0 k ++ seq k (n - k)).
+    { replace n with (k + (n - k)) at 1 by lia. apply seq_app. }
+    pose proof (Permutation_filter' (fun c => Nat.eqb c k) _ _ tree) as P.
+    rewrite (filter_eq_seq k (n - 1) 1) in P by lia.
+    rewrite S1, flat_map_app, filter_app in P. fold (kids k) in P.
+    rewrite (filter_none _ (flat_map ch (seq k (n - k)))) in P.
+    2:{ intros x Ix. apply in_flat_map in Ix. destruct Ix as (j & Ij & Ic).
+        apply in_seq in Ij. apply up in Ic. apply Nat.eqb_neq. lia. }
+    rewrite app_nil_r in P. apply Permutation_sym, Permutation_length_1_inv in P. exact P.
+  Qed.
+
+  Lemma forest_level : forall d k, k + d = n -> 1 <= k ->
+    Permutation (flat_map full (roots k)) (seq k d).
+  Proof.
+    induction d as [|d IH]; intros k E L.
+    - unfold roots. rewrite filter_none; [constructor|].
+      intros c Ic. apply kids_lt in Ic. apply Nat.leb_gt. lia.
+    - assert (R1 : roots (S k) = filter (fun c => Nat.leb (S k) c) (kids k) ++ ch k).
+      { unfold roots. rewrite kids_S, filter_app. f_equal.
+        apply filter_all. intros c Ic. apply up in Ic. apply Nat.leb_le. lia. }
+      assert (R0 : Permutation (roots k) (k :: filter (fun c => Nat.leb (S k) c) (kids k))).
+      { unfold roots. eapply perm_trans; [apply filter_le_split|].
+        rewrite once_below by lia. apply Permutation_refl. }
+      eapply perm_trans; [apply Permutation_flat_map, R0|].
+      simpl. rewrite full_unfold by lia. simpl. constructor.
+      eapply perm_trans; [|apply (IH (S k)); lia].
+      rewrite R1, flat_map_app. apply Permutation_app_comm.
+  Qed.
+
+  Theorem forest_visit : Permutation (vis (S n) 0) (seq 0 n).
+  Proof.
+    rewrite (vis_fuel (S n) (n - 0) 0) by lia. fold (full 0).
+    rewrite full_unfold by exact pos.
+    assert (Sq : seq 0 n = 0 :: seq 1 (n - 1)).
+    { clear - pos. destruct n; [lia|]. simpl. rewrite Nat.sub_0_r. reflexivity. }
+    rewrite Sq. constructor.
+    assert (R : roots 1 = ch 0).
+    { unfold roots. rewrite kids_S. unfold kids. cbn [seq flat_map app].
+      apply filter_all. intros c Ic. apply up in Ic. apply Nat.leb_le. lia. }
+    rewrite <- R. apply forest_level; lia.
+  Qed.
+End Forest.
+
+Lemma find_next_content_lists : forall data acc st nm sk var data1 st1 nm1,
+  find_next data acc st nm = (sk, var, data1, st1, nm1) -> rev sk ++ data1 = rev acc ++ data.
+Proof.
+  induction data as [|d data IH]; intros acc st nm sk var data1 st1 nm1 E.
+  - simpl in E. inversion E; subst. rewrite !app_nil_r. reflexivity.
+  - destruct d as [t push es|]; cbn [find_next] in E.
+    + destruct (if dmem atom_eqb (tsrc t) nm then site (tsrc t) st nm else (false, st, nm))
+        as [[ok1 sa] na].
+      destruct ok1; [inversion E; subst; reflexivity|].
+      destruct (if dmem atom_eqb (ttgt t) nm then site (ttgt t) st nm else (false, st, nm))
+        as [[ok2 sb] nb].
+      destruct ok2; [inversion E; subst; reflexivity|].
+      destruct data as [|d' data']; [inversion E; subst; reflexivity|].
+      apply IH in E. rewrite E. simpl. rewrite <- app_assoc. reflexivity.
+    + destruct data as [|d' data']; [inversion E; subst; reflexivity|].
+      apply IH in E. rewrite E. simpl. rewrite <- app_assoc. reflexivity.
+Qed.
+
+(* ------------------------------------------------------------------ *)
+(** * Surface markers: when the epidata holds layout markers only, no edge of
+      the store carries an alignment *)
+
+Definition eps_store (st : store) : Prop :=
+  forall ve e, In ve st -> In e (snd ve) -> snd e = [].
+Definition eps_datum (d : datum) : Prop := match d with DT _ _ es => es = [] | DPop => True end.
+Definition eps_data (data : list datum) : Prop := Forall eps_datum data.
+
+Lemma eps_store_upd : forall st id f,
+  eps_store st -> (forall ve, (forall e, In e (snd ve) -> snd e = []) ->
+                               forall e, In e (snd (f ve)) -> snd e = []) ->
+  eps_store (upd id f st).
+Proof.
+  induction st as [|x st IH]; intros id f H Hf ve e Ive Ie; [destruct id; contradiction|].
+  destruct id as [|id]; simpl in Ive.
+  - destruct Ive as [<-|Ive].
+    + eapply Hf; [|exact Ie]. intros e' Ie'. eapply H; [left; reflexivity|exact Ie'].
+    + eapply H; [right; exact Ive|exact Ie].
+  - destruct Ive as [<-|Ive].
+    + eapply H; [left; reflexivity|exact Ie].
+    + eapply (IH id f); [|exact Hf|exact Ive|exact Ie].
+      intros ve' e' I1 I2. eapply H; [right; exact I1|exact I2].
+Qed.
+
+Lemma eps_store_add_end : forall st id r t, eps_store st -> eps_store (add_edge_end id (r, t, []) st).
+Proof.
+  intros st id r t H. apply eps_store_upd; [exact H|].
+  intros ve Hve e Ie. simpl in Ie. apply in_app_or in Ie. destruct Ie as [Ie|[<-|[]]]; auto.
+Qed.
+Lemma eps_store_add_front : forall st id r t, eps_store st -> eps_store (add_edge_front id (r, t, []) st).
+Proof.
+  intros st id r t H. apply eps_store_upd; [exact H|].
+  intros ve Hve e Ie. simpl in Ie. destruct Ie as [<-|Ie]; auto.
+Qed.
+Lemma eps_store_snoc : forall st v, eps_store st -> eps_store (st ++ [(v, [])]).
+Proof.
+  intros st v H ve e Ive Ie. apply in_app_or in Ive. destruct Ive as [Ive|[<-|[]]].
+  - eapply H; eassumption.
+  - contradiction.
+Qed.
+
+Lemma cnode_eps : forall f m var id surp data st nm s' data' st' nm',
+  cnode f m var id surp data st nm = Ok (s', data', st', nm') ->
+  eps_store st -> eps_data data -> eps_store st' /\ eps_data data'.
+Proof.
+  induction f as [|f IH]; intros m var id surp data st nm s' data' st' nm' E S D; [discriminate|].
+  destruct data as [|d data0]; [simpl in E; inversion E; subst; auto|].
+  destruct d as [t push es|]; [|simpl in E; inversion E; subst; inversion D; auto].
+  inversion D as [|? ? Hd D0]; subst. simpl in Hd. subst es.
+  cbn [cnode] in E.
+  destruct (atom_eqb (tsrc t) var).
+  - destruct (str_eqb (trole t) INSTANCE).
+    + destruct (missing_concept (ttgt t)); eapply IH; eauto using eps_store_add_front.
+    + destruct (push && negb (has_node (ttgt t) st nm)).
+      * destruct (cnode f m (ttgt t) (length st) false data0 (st ++ [(ttgt t, [])])
+                    (dset atom_eqb (ttgt t) (Some (length st)) nm))
+          as [[[[s2 data2] st2] nm2]| | | | | | | |] eqn:E1; try discriminate.
+        destruct (IH _ _ _ _ _ _ _ _ _ _ _ E1 (eps_store_snoc _ _ S) D0) as [S2 D2].
+        eapply IH; eauto using eps_store_add_end.
+      * eapply IH; eauto using eps_store_add_end.
+  - destruct (atom_eqb (ttgt t) var && negb (str_eqb (trole t) INSTANCE)).
+    + destruct (str_eqb (trole (invert m t)) INSTANCE).
+      * destruct (missing_concept (ttgt (invert m t))); eapply IH; eauto using eps_store_add_front.
+      * cbn [andb] in E. eapply IH; eauto using eps_store_add_end.
+    + inversion E; subst. split; [exact S|]. constructor; [reflexivity|exact D0].
+Qed.
+
+Lemma replace_first_eps : forall v nid es, (forall e, In e es -> snd e = []) ->
+  forall e, In e (replace_first v nid es) -> snd e = [].
+Proof.
+  intros v nid. induction es as [|x es IH]; intros H e Ie; [contradiction|].
+  destruct x as [[r t] ep]. destruct t as [a|i]; simpl in Ie.
+  - destruct (atom_eqb a v && negb (str_eqb r SLASHS)).
+    + destruct Ie as [<-|Ie]; [apply (H (r, CA a, ep)); left; reflexivity|apply H; right; exact Ie].
+    + destruct Ie as [<-|Ie]; [apply H; left; reflexivity|].
+      apply IH; [|exact Ie]. intros e' Ie'. apply H. right. exact Ie'.
+  - destruct Ie as [<-|Ie]; [apply H; left; reflexivity|].
+    apply IH; [|exact Ie]. intros e' Ie'. apply H. right. exact Ie'.
+Qed.
+
+Lemma site_eps : forall v st nm ok st1 nm1,
+  site v st nm = (ok, st1, nm1) -> eps_store st -> eps_store st1.
+Proof.
+  intros v st nm ok st1 nm1. unfold site.
+  destruct (dget atom_eqb v nm) as [[id|]|]; try (intros E S; inversion E; subst; exact S).
+  destruct (nth_error st id) as [[v' es]|]; try (intros E S; inversion E; subst; exact S).
+  destruct (atom_eqb v v'); intros E S; inversion E; subst; [exact S|].
+  apply eps_store_snoc. apply eps_store_upd; [exact S|].
+  intros ve Hve e Ie. simpl in Ie. eapply replace_first_eps; eassumption.
+Qed.
+
+Lemma find_next_eps : forall data acc st nm sk var data1 st1 nm1,
+  find_next data acc st nm = (sk, var, data1, st1, nm1) -> eps_store st -> eps_store st1.
+Proof.
+  induction data as [|d data IH]; intros acc st nm sk var data1 st1 nm1 E S.
+  - simpl in E. inversion E; subst. exact S.
+  - destruct d as [t push es|]; cbn [find_next] in E.
+    + destruct (if dmem atom_eqb (tsrc t) nm then site (tsrc t) st nm else (false, st, nm))
+        as [[ok1 sa] na] eqn:S1.
+      assert (Sa : eps_store sa).
+      { destruct (dmem atom_eqb (tsrc t) nm); [eapply site_eps; eassumption|inversion S1; subst; exact S]. }
+      destruct ok1; [inversion E; subst; exact Sa|].
+      destruct (if dmem atom_eqb (ttgt t) nm then site (ttgt t) st nm else (false, st, nm))
+        as [[ok2 sb] nb] eqn:S2.
+      assert (Sb : eps_store sb).
+      { destruct (dmem atom_eqb (ttgt t) nm); [eapply site_eps; eassumption|inversion S2; subst; exact S]. }
+      destruct ok2; [inversion E; subst; exact Sb|].
+      destruct data as [|d' data']; [inversion E; subst; exact S|].
+      eapply IH; eassumption.
+    + destruct data as [|d' data']; [inversion E; subst; exact S|].
+      eapply IH; eassumption.
+Qed.
+
+Lemma eps_data_drop_pops : forall d, eps_data d -> eps_data (drop_pops d).
+Proof.
+  induction d as [|[t p e|] d IH]; intros H; simpl; auto. inversion H; subst. auto.
+Qed.
+
+Lemma cloop_eps : forall f m data skipped st nm st',
+  cloop f m data skipped st nm = Ok st' ->
+  eps_store st -> eps_data data -> eps_data skipped -> eps_store st'.
+Proof.
+  induction f as [|f IH]; intros m data skipped st nm st' E Hs Dd Ds; [discriminate|].
+  rewrite cloop_S in E.
+  destruct data as [|d0 data0].
+  { destruct skipped; [|discriminate]. inversion E; subst. exact Hs. }
+  remember (d0 :: data0) as data eqn:Hdata.
+  destruct (find_next data [] st nm) as [[[[sk var] data1] st1] nm1] eqn:FN.
+  pose proof (find_next_eps _ _ _ _ _ _ _ _ _ FN Hs) as S1.
+  pose proof (find_next_content_lists _ _ _ _ _ _ _ _ _ FN) as Esplit. simpl in Esplit.
+  assert (Dall : eps_data (rev sk ++ data1)) by (rewrite Esplit; exact Dd).
+  apply Forall_app in Dall. destruct Dall as [Drsk Dd1].
+  assert (Dsk : eps_data sk).
+  { unfold eps_data. rewrite <- (rev_involutive sk). apply Forall_rev. exact Drsk. }
+  cbv zeta in E.
+  destruct var as [v|]; [|discriminate].
+  assert (E' :
+    (if Nat.eqb (length data1) 0 then LayoutErr 1
+     else match dget atom_eqb v nm1 with
+          | Some (Some id) =>
+              r <- cnode (S (length data1)) m v id false data1 st1 nm1 ;;
+              let '(surp, data2, st2, nm2) := r in
+              if Nat.eqb (length data2) (length data1) && surp then
+                match data2 with
+                | d :: data3 => cloop f m (drop_pops data3) (d :: skipped ++ sk) st2 nm2
+                | [] => Other 3
+                end
+              else if Nat.leb (length data1) (length data2) then LayoutErr 2
+              else cloop f m (drop_pops (data2 ++ rev (skipped ++ sk))) [] st2 nm2
+          | _ => Other 2
+          end) = Ok st').
+  { destruct v; [discriminate|exact E|exact E]. }
+  clear E.
+  destruct (Nat.eqb (length data1) 0); [discriminate|].
+  destruct (dget atom_eqb v nm1) as [[id|]|]; try discriminate.
+  destruct (cnode (S (length data1)) m v id false data1 st1 nm1)
+    as [[[[surp data2] st2] nm2]| | | | | | | |] eqn:EC; try discriminate.
+  cbn [bind] in E'.
+  destruct (cnode_eps _ _ _ _ _ _ _ _ _ _ _ _ EC S1 Dd1) as [S2 Dd2].
+  destruct (Nat.eqb (length data2) (length data1) && surp).
+  - destruct data2 as [|d data3]; [discriminate|]. inversion Dd2; subst.
+    eapply IH; [exact E'|exact S2|apply eps_data_drop_pops; assumption|].
+    constructor; [assumption|]. apply Forall_app. split; assumption.
+  - destruct (Nat.leb (length data1) (length data2)); [discriminate|].
+    eapply IH; [exact E'|exact S2| |constructor].
+    apply eps_data_drop_pops. apply Forall_app. split; [exact Dd2|].
+    apply Forall_rev. apply Forall_app. split; assumption.
+Qed.
+
+(* ------------------------------------------------------------------ *)
+(** * Reading the tree off the store: [build] visits every node once *)
+
+Definition children (st : store) (i : nat) : list nat :=
+  match nth_error st i with Some ve => node_cns ve | None => [] end.
+Definition nt (st : store) (i : nat) : list triple :=
+  match nth_error st i with Some ve => node_triples st ve | None => [] end.
+
+Lemma flat_map_seq_nth_gen : forall {B} (g : atom * list cedge -> list B) (st pre : store),
+  flat_map (fun i => match nth_error (pre ++ st) i with Some ve => g ve | None => [] end)
+           (seq (length pre) (length st)) = flat_map g st.
+Proof.
+  intros B g. induction st as [|x st IH]; intros pre; simpl; [reflexivity|].
+  rewrite nth_error_app2 by lia. rewrite Nat.sub_diag. simpl. f_equal.
+  specialize (IH (pre ++ [x])). rewrite app_length in IH. simpl in IH.
+  rewrite Nat.add_1_r, <- app_assoc in IH. exact IH.
+Qed.
+
+Lemma flat_map_seq_nth : forall {B} (g : atom * list cedge -> list B) (st : store),
+  flat_map (fun i => match nth_error st i with Some ve => g ve | None => [] end)
+           (seq 0 (length st)) = flat_map g st.
+Proof. intros B g st. apply (flat_map_seq_nth_gen g st []). Qed.
+
+Lemma node_var_at_nth : forall st i v es, nth_error st i = Some (v, es) -> node_var_at st i = v.
+Proof.
+  intros st i v es E. unfold node_var_at.
+  apply (nth_error_nth (map fst st) i ANone). rewrite nth_error_map, E. reflexivity.
+Qed.
+
+Lemma flat_map_flat_map : forall {A B C} (f : B -> list C) (g : A -> list B) l,
+  flat_map f (flat_map g l) = flat_map (fun x => flat_map f (g x)) l.
+Proof.
+  intros A B C f g. induction l as [|x l IH]; simpl; [reflexivity|].
+  rewrite flat_map_app, IH. reflexivity.
+Qed.
+
+Definition branch_reads (v : atom) (b : branch) : list triple :=
+  (akey v, fst b, akey (target_atom (snd b)))
+  :: match snd b with TNode n' => node_branch_triples n' | TAtom _ => [] end.
+Definition branch_vars (b : branch) : list atom :=
+  match snd b with TNode n' => node_all_vars n' | TAtom _ => [] end.
+Definition build_branch (f' : nat) (st : store) (e : cedge) : branch :=
+  let '(r, t, ep) := e in
+  apply_epis r (match t with CA a => TAtom a | CN i => TNode (build f' st i) end) ep.
+
+Lemma build_S : forall f' st i v es, nth_error st i = Some (v, es) ->
+  build (S f') st i = Node v (map (build_branch f' st) es).
+Proof. intros f' st i v es E. cbn [build]. rewrite E. reflexivity. Qed.
+
+Lemma build_reads : forall st, eps_store st ->
+  (forall j w es e i, nth_error st j = Some (w, es) -> In e es -> snd (fst e) = CN i ->
+                      j < i < length st) ->
+  forall f i, i < length st -> length st - i <= f ->
+    node_var (build f st i) = node_var_at st i /\
+    Permutation (node_branch_triples (build f st i)) (flat_map (nt st) (vis (children st) f i)) /\
+    Permutation (node_all_vars (build f st i)) (map (node_var_at st) (vis (children st) f i)).
+Proof.
+  intros st Heps Hup. induction f as [|f' IH]; intros i Li Lf; [lia|].
+  destruct (nth_error st i) as [[v es]|] eqn:G; [|apply nth_error_None in G; lia].
+  rewrite (build_S _ _ _ _ _ G).
+  split; [simpl; symmetry; eapply node_var_at_nth; exact G|].
+  assert (Hes : forall e, In e es -> snd e = []).
+  { intros e Ie. eapply (Heps (v, es)); [eapply nth_error_In; exact G|exact Ie]. }
+  assert (Inner : forall es', incl es' es ->
+    Permutation (flat_map (branch_reads v) (map (build_branch f' st) es'))
+                (map (cedge_triple st v) es' ++
+                 flat_map (nt st) (flat_map (vis (children st) f') (flat_map edge_cn es'))) /\
+    Permutation (flat_map branch_vars (map (build_branch f' st) es'))
+                (map (node_var_at st) (flat_map (vis (children st) f') (flat_map edge_cn es')))).
+  { induction es' as [|e es' IHe]; intros Hin; [simpl; split; constructor|].
+    assert (Ie : In e es) by (apply Hin; left; reflexivity).
+    destruct IHe as [IHt IHv]; [intros x Ix; apply Hin; right; exact Ix|].
+    pose proof (Hes e Ie) as Eep.
+    destruct e as [[r t] ep]. simpl in Eep. subst ep.
+    destruct t as [a|j].
+    - simpl. split; [constructor; exact IHt|exact IHv].
+    - assert (Lj : i < j < length st) by (eapply Hup; [exact G|exact Ie|reflexivity]).
+      destruct (IH j) as (Vj & Tj & Nj); [lia|lia|].
+      cbn [map flat_map edge_cn snd fst app build_branch apply_epis fold_left].
+      unfold branch_reads at 1. unfold branch_vars at 1. cbn [fst snd target_atom].
+      rewrite Vj. rewrite !flat_map_app, map_app.
+      split.
+      + cbn [app]. unfold cedge_triple at 1. cbn [fst snd ctgt_atom]. constructor.
+        eapply perm_trans; [apply Permutation_app; [exact Tj|exact IHt]|].
+        psolve.
+      + apply Permutation_app; [exact Nj|exact IHv]. }
+  destruct (Inner es (incl_refl _)) as [It Iv].
+  assert (Ent : nt st i = map (cedge_triple st v) es) by (unfold nt; rewrite G; reflexivity).
+  assert (Ech : children st i = flat_map edge_cn es) by (unfold children; rewrite G; reflexivity).
+  split.
+  - cbn [vis]. rewrite Ech. cbn [flat_map]. rewrite Ent.
+    cbn [node_branch_triples].
+    change (flat_map (fun b : branch => (akey v, fst b, akey (target_atom (snd b)))
+              :: match snd b with TNode n' => node_branch_triples n' | TAtom _ => [] end))
+      with (flat_map (branch_reads v)).
+    exact It.
+  - cbn [vis]. rewrite Ech. cbn [map node_all_vars].
+    rewrite (node_var_at_nth _ _ _ _ G). constructor.
+    change (flat_map (fun b : branch => match snd b with TNode n' => node_all_vars n' | TAtom _ => [] end))
+      with (flat_map branch_vars).
+    exact Iv.
+Qed.
+
+Lemma In_children : forall P st nm i c, WF P st nm -> In c (children st i) -> i < c < length st.
+Proof.
+  intros P st nm i c W H. unfold children in H.
+  destruct (nth_error st i) as [[v es]|] eqn:G; [|contradiction].
+  unfold node_cns in H. simpl in H. apply in_flat_map in H. destruct H as (e & Ie & Ic).
+  unfold edge_cn in Ic. destruct (snd (fst e)) as [a|j] eqn:T; [contradiction|].
+  destruct Ic as [<-|[]]. eapply (wf_up _ _ _ W); eassumption.
+Qed.
+
+Lemma map_var_at_seq : forall st, map (node_var_at st) (seq 0 (length st)) = map fst st.
+Proof.
+  intros st. apply (nth_ext _ _ ANone ANone).
+  - rewrite !map_length, seq_length. reflexivity.
+  - intros k Lk. rewrite map_length, seq_length in Lk.
+    rewrite (nth_indep _ ANone (node_var_at st 0)) by (rewrite map_length, seq_length; exact Lk).
+    rewrite map_nth, seq_nth by exact Lk. reflexivity.
+Qed.
+
+Theorem tree_of_store : forall st nm, WF [] st nm -> eps_store st ->
+  Permutation (node_branch_triples (build (S (length st)) st 0)) (store_triples st) /\
+  Permutation (node_all_vars (build (S (length st)) st 0)) (map fst st) /\
+  node_var (build (S (length st)) st 0) = node_var_at st 0.
+Proof.
+  intros st nm W Heps.
+  pose proof (wf_pos _ _ _ W) as Lpos.
+  destruct (build_reads st Heps (wf_up _ _ _ W) (S (length st)) 0 Lpos ltac:(lia)) as (Vr & Tr & Nr).
+  assert (FV : Permutation (vis (children st) (S (length st)) 0) (seq 0 (length st))).
+  { apply forest_visit.
+    - intros i c Ic. eapply In_children; eassumption.
+    - pose proof (wf_tree _ _ _ W) as T. rewrite app_nil_r in T.
+      unfold children. rewrite (flat_map_seq_nth node_cns st). exact T.
+    - exact Lpos. }
+  split; [|split; [|exact Vr]].
+  - eapply perm_trans; [exact Tr|].
+    eapply perm_trans; [apply Permutation_flat_map, FV|].
+    unfold nt. rewrite (flat_map_seq_nth (node_triples st) st). apply Permutation_refl.
+  - eapply perm_trans; [exact Nr|].
+    eapply perm_trans; [apply Permutation_map, FV|].
+    rewrite map_var_at_seq. apply Permutation_refl.
+Qed.
+
+Lemma store_vars_nodup : forall P st nm, WF P st nm -> NoDup (map akey (map fst st)).
+Proof.
+  intros P st nm W. apply NoDup_nth_error. intros i j Li E.
+  rewrite !map_length in Li.
+  rewrite !nth_error_map in E.
+  destruct (nth_error st i) as [[vi ei]|] eqn:Gi; [|apply nth_error_None in Gi; lia].
+  destruct (nth_error st j) as [[vj ej]|] eqn:Gj; [|discriminate].
+  simpl in E. inversion E as [K]. apply akey_eq_iff in K.
+  pose proof (wf_own _ _ _ W _ _ _ Gi) as Oi. pose proof (wf_own _ _ _ W _ _ _ Gj) as Oj.
+  rewrite (dget_cong _ _ _ K) in Oi. congruence.
+Qed.
+
+(* ------------------------------------------------------------------ *)
+(** * [preconf] = _preconfigure *)
+
+Definition pstep (m : model) (t : triple)
+  (st : triple * bool * list epi * nat * list atom) (e : epi) :=
+  let '(t', push, keep, pops, pushed) := st in
+  match e with
+  | Push pv =>
+      if mem atom_eqb pv pushed then st
+      else if negb (atom_eqb pv (tsrc t) || atom_eqb pv (ttgt t)) || str_eqb (trole t) INSTANCE then st
+      else ((if atom_eqb pv (tsrc t) then invert m t' else t'), true, keep, pops, pv :: pushed)
+  | Pop => (t', push, keep, S pops, pushed)
+  | _ => (t', push, keep ++ [e], pops, pushed)
+  end.
+
+Lemma preconf_one_fold : forall m t es pushed,
+  preconf_one m t es pushed = fold_left (pstep m t) es (t, false, [], O, pushed).
+Proof. reflexivity. Qed.
+
+Lemma mem_cong : forall a b l, atom_eqb a b = true -> mem atom_eqb a l = mem atom_eqb b l.
+Proof.
+  intros a b l E. unfold mem. induction l as [|x l IH]; simpl; [reflexivity|].
+  rewrite (atom_eqb_cong_l _ _ x E), IH. reflexivity.
+Qed.
+
+Lemma pstep_orient : forall m t es t0 push0 keep0 pops0 pushed0 t' push keep pops pushed,
+  fold_left (pstep m t) es (t0, push0, keep0, pops0, pushed0) = (t', push, keep, pops, pushed) ->
+  (t0 = t \/ (t0 = invert m t /\ mem atom_eqb (tsrc t) pushed0 = true /\ is_instance t = false)) ->
+  (t' = t \/ (t' = invert m t /\ is_instance t = false)).
+Proof.
+  intros m t. induction es as [|e es IH]; intros t0 push0 keep0 pops0 pushed0 t' push keep pops pushed E H.
+  - simpl in E. inversion E; subst. tauto.
+  - simpl in E. destruct e as [pv| |i p|i p]; try (eapply IH; eassumption).
+    destruct (mem atom_eqb pv pushed0) eqn:M; [eapply IH; eassumption|].
+    destruct (negb (atom_eqb pv (tsrc t) || atom_eqb pv (ttgt t)) || str_eqb (trole t) INSTANCE) eqn:Cnd;
+      [eapply IH; eassumption|].
+    apply orb_false_iff in Cnd. destruct Cnd as [_ Hni].
+    eapply IH; [exact E|].
+    destruct (atom_eqb pv (tsrc t)) eqn:Ev.
+    + destruct H as [->|[_ [Hm _]]].
+      * right. split; [reflexivity|]. split; [|exact Hni].
+        unfold mem. simpl. rewrite atom_eqb_sym, Ev. reflexivity.
+      * rewrite (mem_cong _ _ _ Ev), Hm in M. discriminate.
+    + destruct H as [->|[-> [Hm Hn]]]; [left; reflexivity|].
+      right. split; [reflexivity|]. split; [|exact Hn].
+      unfold mem in *. simpl. rewrite Hm. apply orb_true_r.
+Qed.
+
+Lemma pstep_keep : forall m t es t0 push0 keep0 pops0 pushed0 t' push keep pops pushed,
+  fold_left (pstep m t) es (t0, push0, keep0, pops0, pushed0) = (t', push, keep, pops, pushed) ->
+  forallb is_layout es = true -> keep = keep0.
+Proof.
+  intros m t. induction es as [|e es IH]; intros t0 push0 keep0 pops0 pushed0 t' push keep pops pushed E H.
+  - simpl in E. inversion E; subst. reflexivity.
+  - simpl in H. apply andb_true_iff in H. destruct H as [He H].
+    simpl in E. destruct e as [pv| |i p|i p]; try discriminate; try (eapply IH; eassumption).
+    destruct (mem atom_eqb pv pushed0); [eapply IH; eassumption|].
+    destruct (negb (atom_eqb pv (tsrc t) || atom_eqb pv (ttgt t)) || str_eqb (trole t) INSTANCE);
+      eapply IH; eassumption.
+Qed.
+
+Definition pre_as (m : model) (x t' : triple) : Prop :=
+  t' = x \/ (t' = invert m x /\ is_instance x = false).
+
+Lemma data_triples_pops : forall n, data_triples (repeat DPop n) = [].
+Proof. induction n; simpl; auto. Qed.
+
+Lemma preconf_triples : forall m ts ed pushed,
+  Forall2 (pre_as m) ts (data_triples (preconf m ts ed pushed)).
+Proof.
+  intros m. induction ts as [|t ts IH]; intros ed pushed; [constructor|].
+  simpl.
+  destruct (preconf_one m t (match dget triple_eqb t ed with Some l => l | None => [] end) pushed)
+    as [[[[t' push] keep] pops] pushed'] eqn:E.
+  simpl. rewrite data_triples_app, data_triples_pops. simpl.
+  constructor; [|apply IH].
+  rewrite preconf_one_fold in E. eapply pstep_orient; [exact E|left; reflexivity].
+Qed.
+
+Lemma dget_In : forall {K V} (eqb : K -> K -> bool) k (d : dict K V) v,
+  dget eqb k d = Some v -> exists k', In (k', v) d.
+Proof.
+  intros K V eqb k. induction d as [|[k' v'] d IH]; intros v E; [discriminate|].
+  simpl in E. destruct (eqb k k').
+  - inversion E; subst. exists k'. left. reflexivity.
+  - destruct (IH _ E) as [k2 I2]. exists k2. right. exact I2.
+Qed.
+
+Lemma preconf_eps : forall m ts ed pushed,
+  (forall t es, In (t, es) ed -> forallb is_layout es = true) ->
+  eps_data (preconf m ts ed pushed).
+Proof.
+  intros m. induction ts as [|t ts IH]; intros ed pushed H; [constructor|].
+  simpl.
+  destruct (preconf_one m t (match dget triple_eqb t ed with Some l => l | None => [] end) pushed)
+    as [[[[t' push] keep] pops] pushed'] eqn:E.
+  constructor.
+  - simpl. rewrite preconf_one_fold in E. eapply pstep_keep; [exact E|].
+    destruct (dget triple_eqb t ed) as [l|] eqn:D; [|reflexivity].
+    destruct (dget_In _ _ _ _ D) as [k' Ik]. eapply H. exact Ik.
+  - apply Forall_app. split; [|apply IH; exact H].
+    clear. induction pops; simpl; constructor; simpl; auto.
+Qed.
+
+(* ------------------------------------------------------------------ *)
+(** * [configure] *)
+
+Definition expressed (m : model) (x : triple) (os : list triple) : Prop :=
+  exists t', pre_as m x t' /\ placed_as m t' os.
+
+Lemma dget_map_none : forall (v : atom) (l : list atom) i,
+  dget atom_eqb v (map (fun x => (x, @None nat)) l) <> Some (Some i).
+Proof.
+  intros v l i. induction l as [|x l IH]; simpl; [discriminate|].
+  destruct (atom_eqb v x); [discriminate|exact IH].
+Qed.
+
+Lemma WF_init : forall tp vars,
+  WF [] [(tp, [])] (dset atom_eqb tp (Some O) (map (fun v => (v, @None nat)) vars)).
+Proof.
+  intros tp vars. constructor.
+  - intros i v es E. destruct i as [|i]; simpl in E; [|destruct i; discriminate].
+    inversion E; subst. apply dget_dset_same.
+  - intros v i D. destruct (atom_eqb v tp) eqn:Ev.
+    + rewrite dget_dset_eq in D by exact Ev. inversion D; subst. simpl. lia.
+    + rewrite dget_dset_other in D by exact Ev. apply dget_map_none in D. contradiction.
+  - intros v i w es D E N. destruct (atom_eqb v tp) eqn:Ev.
+    + rewrite dget_dset_eq in D by exact Ev. inversion D; subst i. simpl in E.
+      inversion E; subst. congruence.
+    + rewrite dget_dset_other in D by exact Ev. apply dget_map_none in D. contradiction.
+  - intros j w es e i E Ie T. destruct j as [|j]; simpl in E; [|destruct j; discriminate].
+    inversion E; subst. contradiction.
+  - simpl. constructor.
+  - simpl. lia.
+Qed.
+
+Lemma pre_as_colon : forall m ts ts', Forall2 (pre_as m) ts ts' -> colon_ok ts -> colon_ok ts'.
+Proof.
+  intros m ts ts' F. induction F as [|x y l l' Hxy F IH]; intros C; [constructor|].
+  inversion C; subst. constructor; [|apply IH; assumption].
+  destruct Hxy as [->|[-> _]]; [assumption|]. apply colon_invert_role. assumption.
+Qed.
+
+Lemma Forall2_compose : forall {A B C} (R1 : A -> B -> Prop) (R2 : B -> C -> Prop) a b c,
+  Forall2 R1 a b -> Forall2 R2 b c -> Forall2 (fun x z => exists y, R1 x y /\ R2 y z) a c.
+Proof.
+  intros A B C R1 R2 a b c F1. revert c. induction F1; intros c F2; inversion F2; subst; constructor; eauto.
+Qed.
+
+Theorem configure_store_content : forall m g top t,
+  configure m g top = Ok t -> triples g <> [] -> colon_ok (triples g) ->
+  exists tp st nm,
+    requested_top g top = Some tp /\
+    t = mkTree (build (S (length st)) st 0) (gmeta g) /\
+    WF [] st nm /\ node_var_at st 0 = tp /\
+    (layout_only g -> eps_store st) /\
+    exists os, Forall2 (expressed m) (triples g) os /\
+               Permutation (store_triples st) (concat os).
+Proof.
+  intros m g top t E NE C. unfold configure in E.
+  destruct (triples g) as [|t0 ts] eqn:TS; [contradiction|]. rewrite <- TS in *. clear NE.
+  fold (requested_top g top) in E.
+  destruct (requested_top g top) as [tp|]; [|discriminate].
+  destruct (negb (mem atom_eqb tp (variables g))); [discriminate|].
+  cbv zeta in E.
+  remember (dset atom_eqb tp (Some O) (map (fun v => (v, @None nat)) (variables g))) as nm0 eqn:Hnm0.
+  remember (preconf m (triples g) (epidata g) []) as data0 eqn:Hd0.
+  destruct (cnode (S (length data0)) m tp O false data0 [(tp, [])] nm0)
+    as [[[[s1 data1] st1] nm1]| | | | | | | |] eqn:E1; try discriminate.
+  cbn [bind] in E.
+  destruct (cloop (configure_fuel (length data1)) m (drop_pops data1) [] st1 nm1)
+    as [st2| | | | | | | |] eqn:E2; try discriminate.
+  cbn [bind] in E. inversion E; subst t. clear E.
+  pose proof (preconf_triples m (triples g) (epidata g) []) as Fpre. rewrite <- Hd0 in Fpre.
+  pose proof (pre_as_colon _ _ _ Fpre C) as C0.
+  assert (W0 : WF [] [(tp, [])] nm0) by (rewrite Hnm0; apply WF_init).
+  destruct (cnode_spec _ _ _ _ _ _ _ _ [] _ _ _ _ E1 W0 C0) as (W1 & X1 & used & Eu & A1).
+  { exists tp, []. split; [reflexivity|apply atom_eqb_refl]. }
+  assert (C1 : colon_ok (data_triples data1)).
+  { rewrite Eu, data_triples_app in C0. apply colon_ok_app in C0. tauto. }
+  destruct (cloop_spec _ _ _ _ _ _ _ E2 W1) as ([nm2 W2] & X2 & A2).
+  { rewrite data_triples_drop_pops. exact C1. }
+  { constructor. }
+  exists tp, st2, nm2.
+  split; [reflexivity|]. split; [reflexivity|]. split; [exact W2|].
+  split.
+  { rewrite (ext_var_at [(tp, [])] st2 0 (ext_trans _ _ _ X1 X2)) by (simpl; lia). reflexivity. }
+  split.
+  { intros LO.
+    assert (D0 : eps_data data0) by (rewrite Hd0; apply preconf_eps; exact LO).
+    assert (S0 : eps_store [(tp, [])]).
+    { intros ve e [<-|[]] Ie. contradiction. }
+    destruct (cnode_eps _ _ _ _ _ _ _ _ _ _ _ _ E1 S0 D0) as [S1 D1].
+    eapply cloop_eps; [exact E2|exact S1|apply eps_data_drop_pops; exact D1|constructor]. }
+  pose proof (Adds_app _ _ _ _ _ _ A1 A2) as A.
+  rewrite data_triples_drop_pops in A. simpl in A. rewrite app_nil_r, <- data_triples_app, <- Eu in A.
+  destruct A as (os & Fos & Pos).
+  exists os. split.
+  - pose proof (Forall2_compose _ _ _ _ _ Fpre Fos) as F. exact F.
+  - unfold store_triples at 2 in Pos. unfold flat_triples in Pos. simpl in Pos.
+    rewrite app_nil_r in Pos. exact Pos.
+Qed.
+
+(** T2 at the level of the configured tree *)
+Theorem configure_places_each_triple_once : forall m g top t,
+  configure m g top = Ok t -> triples g <> [] -> colon_ok (triples g) -> layout_only g ->
+  exists tp,
+    requested_top g top = Some tp /\ node_var (troot t) = tp /\
+    NoDup (map akey (tree_node_vars t)) /\
+    exists os, Forall2 (expressed m) (triples g) os /\
+               Permutation (tree_triples t) (concat os).
+Proof.
+  intros m g top t E NE C LO.
+  destruct (configure_store_content m g top t E NE C)
+    as (tp & st & nm & Htop & Ht & W & Hroot & Heps & os & Fos & Pos).
+  destruct (tree_of_store st nm W (Heps LO)) as (PT & PV & HV).
+  exists tp. split; [exact Htop|]. subst t. unfold tree_triples, tree_node_vars. cbn [troot].
+  split; [rewrite HV; exact Hroot|]. split.
+  - eapply Permutation_NoDup; [apply Permutation_sym, Permutation_map, PV|].
+    eapply store_vars_nodup. exact W.
+  - exists os. split; [exact Fos|]. eapply perm_trans; eassumption.
+Qed.
+
+(* ------------------------------------------------------------------ *)
+(** * Content up to the model's single deinversion *)
+
+Lemma no_concept_missing : forall a, no_concept a = missing_concept a.
+Proof. reflexivity. Qed.
+
+Lemma tkey_deinvert_keys : forall m s r t,
+  tkey (deinvert m (akey s, r, akey t)) = tkey (deinvert m (s, r, t)).
+Proof.
+  intros m s r t. unfold deinvert, invert, tkey, tsrc, trole, ttgt. simpl.
+  destruct (deinverts m); [|simpl; rewrite !akey_idem; reflexivity].
+  destruct (is_role_inverted m r); simpl; rewrite !akey_idem; reflexivity.
+Qed.
+
+Lemma triple_eta : forall x : triple, (tsrc x, trole x, ttgt x) = x.
+Proof. intros [[s r] t]. reflexivity. Qed.
+
+Lemma invert_invert : forall m x, invert_role m (invert_role m (trole x)) = trole x ->
+  invert m (invert m x) = x.
+Proof.
+  intros m x H. unfold invert at 1. unfold invert at 1 2 3. unfold tsrc, trole, ttgt in *. simpl.
+  destruct x as [[s r] t]. simpl in *. rewrite H. reflexivity.
+Qed.
+
+Lemma deinvert_invert : forall m x, deinverts m = true -> role_invertible m (trole x) ->
+  deinvert m (invert m x) = deinvert m x.
+Proof.
+  intros m x Hd (R1 & R3 & _). unfold deinvert. rewrite Hd.
+  change (trole (invert m x)) with (invert_role m (trole x)). rewrite R3.
+  destruct (is_role_inverted m (trole x)); simpl; [reflexivity|].
+  apply invert_invert. exact R1.
+Qed.
+
+Lemma instance_not_inverted : forall m, is_role_inverted m INSTANCE = false.
+Proof. intros m. unfold is_role_inverted. rewrite andb_false_r. reflexivity. Qed.
+
+Lemma expressed_content : forall m x os, deinverts m = true ->
+  startswith (trole x) [COLON] = true ->
+  (is_instance x = false -> role_invertible m (trole x)) ->
+  expressed m x os ->
+  tree_content m os = if is_written x then [tkey (deinvert m x)] else [].
+Proof.
+  intros m x os Hd Hc Hr (t' & Hpre & o & Ho & ->).
+  destruct (is_instance x) eqn:Hi.
+  - (* instance triples are never inverted *)
+    destruct Hpre as [->|[_ F]]; [|congruence].
+    destruct Ho as [->|[_ F]]; [|congruence].
+    unfold written, is_written. rewrite Hi. change no_concept with missing_concept.
+    destruct (missing_concept (ttgt x)); [reflexivity|].
+    unfold tree_content, edge_of. rewrite Hi. simpl.
+    unfold unslash. simpl. f_equal.
+    unfold is_instance in Hi. apply str_eqb_eq in Hi.
+    unfold deinvert. destruct x as [[s r] t]. unfold trole, tsrc, ttgt in *. simpl in *. subst r.
+    rewrite !instance_not_inverted. destruct (deinverts m); unfold tkey, tsrc, trole, ttgt; simpl; rewrite !akey_idem; reflexivity.
+  - specialize (Hr eq_refl). pose proof Hr as (R1 & R3 & R2).
+    assert (Io : is_instance o = false /\ deinvert m o = deinvert m x /\ startswith (trole o) [COLON] = true).
+    { assert (Iinv : is_instance (invert m x) = false) by (rewrite is_instance_invert; exact R2).
+      destruct Hpre as [->|[-> _]].
+      - destruct Ho as [->|[-> _]].
+        + auto.
+        + split; [exact Iinv|]. split; [apply deinvert_invert; assumption|].
+          apply colon_invert_role. exact Hc.
+      - destruct Ho as [->|[-> _]].
+        + split; [exact Iinv|]. split; [apply deinvert_invert; assumption|].
+          apply colon_invert_role. exact Hc.
+        + rewrite (invert_invert m x R1). auto. }
+    destruct Io as (Io & Do & Co).
+    unfold written, is_written. rewrite Io, Hi. simpl.
+    unfold tree_content, edge_of. rewrite Io. simpl. f_equal.
+    unfold unslash.
+    change (trole (akey (tsrc o), trole o, akey (ttgt o))) with (trole o).
+    rewrite (colon_not_slash _ Co).
+    rewrite tkey_deinvert_keys, triple_eta, Do. reflexivity.
+Qed.
+
+Lemma expressed_all_content : forall m xs oss, deinverts m = true ->
+  (forall x, In x xs -> startswith (trole x) [COLON] = true) ->
+  (forall x, In x xs -> is_instance x = false -> role_invertible m (trole x)) ->
+  Forall2 (expressed m) xs oss ->
+  tree_content m (concat oss) = map (fun t => tkey (deinvert m t)) (filter is_written xs).
+Proof.
+  intros m xs oss Hd Hc Hr F. induction F as [|x os xs oss Hx F IH]; [reflexivity|].
+  specialize (IH (fun y Iy => Hc y (or_intror Iy)) (fun y Iy => Hr y (or_intror Iy))).
+  simpl. unfold tree_content in *. rewrite map_app. rewrite IH.
+  fold (tree_content m os).
+  rewrite (expressed_content m x os Hd (Hc x (or_introl eq_refl)) (Hr x (or_introl eq_refl)) Hx).
+  destruct (is_written x); reflexivity.
+Qed.
+
+(** C03 at the level of the configured tree: reading the branches back
+    ([/ c] as the instance triple) and deinverting once gives exactly the
+    written triples of the graph, each once. *)
+Theorem configure_content_deinverted : forall m g top t,
+  configure m g top = Ok t -> triples g <> [] -> colon_ok (triples g) -> layout_only g ->
+  deinverts m = true -> roles_invertible m g ->
+  Permutation (tree_content m (tree_triples t)) (graph_content m g).
+Proof.
+  intros m g top t E NE C LO Hd Hr.
+  destruct (configure_places_each_triple_once m g top t E NE C LO)
+    as (tp & _ & _ & _ & os & Fos & Pos).
+  unfold graph_content.
+  rewrite <- (expressed_all_content m (triples g) os Hd).
+  - unfold tree_content. apply Permutation_map. exact Pos.
+  - intros x Ix. unfold colon_ok in C. rewrite Forall_forall in C. apply C. exact Ix.
+  - exact Hr.
+  - exact Fos.
+Qed.
+
+(* ------------------------------------------------------------------ *)
+(** * The statements in the vocabulary of Spec/GraphEq.v *)
+
+Lemma expressed_spec : forall m x os, expressed m x os -> expressed_as m x os.
+Proof.
+  intros m x os (t' & Hpre & o & Ho & ->). exists t', o. split; [exact Hpre|]. split; [exact Ho|].
+  reflexivity.
+Qed.
+
+Theorem configure_places_each_triple_once_spec : forall m g top t,
+  configure m g top = Ok t -> triples g <> [] -> roles_have_colon g -> layout_only g ->
+  exists tp,
+    requested_top g top = Some tp /\ node_var (troot t) = tp /\
+    NoDup (map akey (tree_node_vars t)) /\
+    exists bss, Forall2 (expressed_as m) (triples g) bss /\
+                Permutation (tree_triples t) (concat bss).
+Proof.
+  intros m g top t E NE C LO.
+  destruct (configure_places_each_triple_once m g top t E NE C LO)
+    as (tp & H1 & H2 & H3 & os & Fos & Pos).
+  exists tp. repeat split; try assumption.
+  exists os. split; [|exact Pos].
+  clear - Fos. induction Fos; constructor; [apply expressed_spec; assumption|assumption].
+Qed.
+
+Theorem configure_content_deinverted_spec : forall m g top t,
+  configure m g top = Ok t -> triples g <> [] -> roles_have_colon g -> layout_only g ->
+  deinverts m = true -> roles_invertible m g ->
+  Permutation (tree_content m (tree_triples t)) (graph_content m g).
+Proof. exact configure_content_deinverted. Qed.
+
+(* roles_invertible follows from the C13 laws for canonical roles *)
+Lemma canonical_roles_invertible : forall m g, of_free m ->
+  (forall t, In t (triples g) -> is_instance t = false ->
+     canonical m (trole t) /\ str_eqb (invert_role m (trole t)) INSTANCE = false) ->
+  roles_invertible m g.
+Proof.
+  intros m g OFF H t It Hi. destruct (H t It Hi) as [C N].
+  split; [apply invert_involutive; assumption|]. split; [apply invert_flips; assumption|exact N].
+Qed.
+
+(* the Graph constructor establishes [roles_have_colon] *)
+Lemma mk_graph_roles_colon : forall ts top ed meta, roles_have_colon (mk_graph ts top ed meta).
+Proof.
+  intros ts top ed meta. unfold roles_have_colon, mk_graph. simpl.
+  apply Forall_forall. intros t It. apply in_map_iff in It. destruct It as (x & <- & _).
+  unfold trole. simpl. unfold ensure_colon.
+  destruct (startswith (snd (fst x)) [COLON]) eqn:E; [exact E|].
+  apply colon_iff. eexists. reflexivity.
+Qed.
+
+(* ------------------------------------------------------------------ *)
+(** * The formatter writes every atomic target it is given (F5 repaired) *)
+
+Lemma format_node_shape : forall indent column var e es, falsy var = false ->
+  format_node indent column [] (Node var (e :: es)) =
+  [40%N] ++ atom_str var ++ SPACE ++
+  join (node_joiner indent (node_column indent column var))
+       (map (edge_text indent (node_column indent column var)) (e :: es)) ++ [41%N].
+Proof.
+  intros indent column var e es Hv.
+  cbn [format_node]. rewrite Hv.
+  fold (node_column indent column var). fold (node_joiner indent (node_column indent column var)).
+  set (col' := node_column indent column var).
+  set (joiner := node_joiner indent col').
+  assert (He : forall x : branch,
+    match snd x with
+    | TAtom (AStr (_ :: _) as a) | TAtom (ANum _ _ as a) => role_text (fst x) ++ SPACE ++ atom_str a
+    | TNode n' => role_text (fst x) ++ SPACE ++
+        format_node indent (if is_adaptive indent then (col' + zlen (role_text (fst x)) + 1)%Z else col') [] n'
+    | _ => role_text (fst x)
+    end = edge_text indent col' x).
+  { intros x. unfold edge_text, atom_text.
+    destruct (snd x) as [[|[|ch s]|t z]|n']; try reflexivity; symmetry; apply app_nil_r. }
+  match goal with |- context [?F es ?c ?p] => set (go := F); set (c0 := c); set (p0 := p) end.
+  assert (G : forall es c parts, c = false -> go es c parts = (false, parts ++ map (edge_text indent col') es)).
+  { clear - He. induction es as [|x es IH]; intros c parts ->.
+    - simpl. rewrite app_nil_r. reflexivity.
+    - cbn [go]. fold go. cbn [andb]. rewrite IH by reflexivity.
+      rewrite <- app_assoc. f_equal. f_equal. cbn [map app]. f_equal. apply He. }
+  rewrite G by reflexivity.
+  subst p0. cbn [andb app map]. rewrite He. reflexivity.
+Qed.
+
+Lemma number_is_written : forall indent c r t z,
+  edge_text indent c (r, TAtom (ANum t z)) = role_text r ++ SPACE ++ t.
+Proof. reflexivity. Qed.
+
+Lemma atom_written_iff : forall a, atom_text a = [] <-> no_concept a = true.
+Proof.
+  intros a. destruct a as [|[|c s]|t z]; simpl; split; intro H; try reflexivity; discriminate.
+Qed.
+
+(* ------------------------------------------------------------------ *)
+(** * Worked examples (vm_compute): the F14 and F5 witnesses now behave, and
+      the hypotheses of the theorems are satisfiable *)
+
+Require Import Coq.Strings.String Coq.Strings.Ascii.
+Fixpoint s2l (s : string) : str :=
+  match s with EmptyString => [] | String c s' => N_of_ascii c :: s2l s' end.
+Definition sym (s : string) : atom := AStr (s2l s).
+Definition tr (a r b : string) : triple := (sym a, s2l r, sym b).
+
+(* decode of  (a / y : b :op10 k :op2 (b / a))  -- DESIGN.md F14 *)
+Definition f14_graph : graph :=
+  mkGraph [tr "a" ":instance" "y"; tr "a" ":" "b"; tr "a" ":op10" "k"; tr "a" ":op2" "b";
+           tr "b" ":instance" "a"]
+          (Some (sym "a"))
+          [(tr "a" ":instance" "y", []); (tr "a" ":" "b", []); (tr "a" ":op10" "k", []);
+           (tr "a" ":op2" "b", [Push (sym "b")]); (tr "b" ":instance" "a", [Pop])]
+          [].
+
+Example f14_now_one_node_per_variable :
+  exists t, configure default_model f14_graph (Some (sym "b")) = Ok t /\
+            tree_node_vars t = [sym "b"; sym "a"] /\
+            format (Some (-1)%Z) false t =
+            s2l "(b / a
+   :-of (a / y
+           :op10 k
+           :op2 b))".
+Proof. eexists. split; [vm_compute; reflexivity|]. split; vm_compute; reflexivity. Qed.
+
+Example f14_graph_hypotheses :
+  triples f14_graph <> [] /\ roles_have_colon f14_graph /\ layout_only f14_graph /\
+  deinverts default_model = true /\ roles_invertible default_model f14_graph.
+Proof.
+  split; [discriminate|]. split; [repeat constructor|]. split.
+  - intros t es H. simpl in H.
+    repeat (destruct H as [H|H]; [inversion H; reflexivity|]). contradiction.
+  - split; [reflexivity|]. intros t H Hi. simpl in H.
+    repeat (destruct H as [H|H]; [subst t; try discriminate Hi; vm_compute; auto|]). contradiction.
+Qed.
+
+(* Graph([('a',':instance','x'),('a',':quant',0)])  -- DESIGN.md F5 *)
+Definition f5_graph : graph :=
+  mkGraph [tr "a" ":instance" "x"; (sym "a", s2l ":quant", ANum (s2l "0") true)] None [] [].
+
+Example f5_zero_is_written :
+  exists t, configure default_model f5_graph None = Ok t /\
+            format (Some (-1)%Z) false t = s2l "(a / x
+   :quant 0)".
+Proof. eexists. split; vm_compute; reflexivity. Qed.
+
+(* a numeric concept 0 is written too (F27) *)
+Example zero_concept_is_written :
+  exists t, configure default_model
+              (mkGraph [(sym "a", INSTANCE, ANum (s2l "0") true)] None [] []) None = Ok t /\
+            format (Some (-1)%Z) false t = s2l "(a / 0)".
+Proof. eexists. split; vm_compute; reflexivity. Qed.
+
+(* a disconnected graph and a top that is not a variable are layout errors *)
+Example disconnected_is_layout_error :
+  configure default_model
+    (mkGraph [tr "a" ":instance" "x"; tr "b" ":instance" "y"] None [] []) None = LayoutErr 1 /\
+  configure default_model f5_graph (Some (sym "zz")) = LayoutErr 4.
+Proof. split; vm_compute; reflexivity. Qed.
